@@ -47,6 +47,7 @@ class World:
             self.ctx.assume(t.e >= self.now.e)
         else:
             self.ctx.assume(t.e == symx._real(symx._t(to)))
+        self.ctx.assume(t.e <= 1000000)      # horizon: 10^6 s of physical time
         self.now = t
         self.instants.append(t)
         return t
